@@ -173,6 +173,8 @@ type workerStats struct {
 	EnumCases     int            `json:"enum_cases"`
 	Errors        []string       `json:"errors"`
 	Meta          map[string]any `json:"meta"`
+	MaxRunS       float64        `json:"max_run_s"`
+	MaxRunWhat    string         `json:"max_run_what"`
 }
 
 func setOpenTriggers(findings []Finding) {
@@ -246,7 +248,12 @@ func Worker(t *testing.T) {
 		}
 		currentRun = fmt.Sprintf("%s seed=%d", propID, runSeed)
 		src := NewRandomSource(sc.Base().Sched, runSeed)
+		t0 := time.Now()
 		res := p.Run(t, sc, src, false)
+		if d := time.Since(t0).Seconds(); d > st.MaxRunS {
+			st.MaxRunS = d
+			st.MaxRunWhat = fmt.Sprintf("%s steps=%d", p.Shape(sc), res.Steps)
+		}
 		st.Runs++
 		st.Steps += int64(res.Steps)
 		st.FakeNs += res.FakeNs
